@@ -454,8 +454,12 @@ func runReplay(bin, prop, path string, verbose bool) int {
 // identical per-run trace hashes.
 func selfTest(bin, prop string, seed uint64) int {
 	var ref []string
+	selfRuns := "40"
+	if props[prop].Level == "fault_enumeration" {
+		selfRuns = "8" // each run enumerates thousands of fault positions
+	}
 	for _, gmp := range []string{"1", "4", "16", "4"} {
-		cmd := exec.Command(bin, "-prop", prop, "-seed", strconv.FormatUint(seed, 10), "-runs", "40", "-traceonly", "-detpct", "0", "-maxviol", "1000", "-shrink", "0s",
+		cmd := exec.Command(bin, "-prop", prop, "-seed", strconv.FormatUint(seed, 10), "-runs", selfRuns, "-traceonly", "-detpct", "0", "-maxviol", "1000", "-shrink", "0s",
 			"-replaydir", filepath.Join(scratch, "st-replays"))
 		cmd.Env = append(os.Environ(), "GOMAXPROCS="+gmp, "VERIF_SCRATCH="+scratch)
 		cmd.Dir = scratch
